@@ -273,7 +273,8 @@ def run(a):
                     reclassify(c)
                     narrow(c)
                     c.cov["programs"] = sum(1 for l in open(ops) if l.startswith("# case"))
-                    c.cov["exhaustive"] = "depth<=3 over 6-key pool (quick) / depth<=4 (thorough), see input_distribution"
+                    c.cov["exhaustive"] = ("all op sequences over the 35-op alphabet of a 6-key pool: quick depth<=2 (6 keys), depth 3 (3 keys), depth 4 (2 keys); "
+                                             "thorough depth<=4 (6 keys: 1.4M cases); counts in input_distribution")
         c.prove("ClientGoVerif.Props.C08")
     return c.finish()
 
